@@ -32,12 +32,12 @@ const char* const kFaultNames[] = { "preemption", "child_runs_first_at_create", 
 enum ProbeId { P_singleton_run, P_managed_run, P_two_threads_inside_instance, P_lock_waited,
                P_query_while_running, P_query_before_start, P_query_after_finish, P_child_ran_before_ctor_end,
                P_join_explicit, P_join_by_destructor, P_observer_thread, P_reset_between_rounds,
-               P_policy_random, P_policy_pct, P_policy_rr, P_function_over_before_ctor_end };
+               P_policy_random, P_policy_pct, P_policy_rr, P_function_over_before_ctor_end, P_two_singleton_types, P_persistent_threads };
 const char* const kProbeNames[] = { "singleton_run", "managed_run", "two_threads_inside_instance", "lock_waited",
                "query_while_function_running", "query_before_start", "query_after_finish",
                "child_ran_before_constructor_finished", "join_explicit", "join_by_destructor", "observer_thread",
                "reset_between_rounds", "policy_random", "policy_pct", "policy_rr",
-               "function_finished_before_constructor_returned" };
+               "function_finished_before_constructor_returned", "two_singleton_types_in_one_run", "threads_living_across_reset" };
 
 // ------------------------------------------------------------ singleton
 
@@ -51,12 +51,24 @@ uint64_t payloadWord( int arg, int idx)
    return sim::splitmix64( x);
 }
 
+/// objects of the probe type come from a bump arena: an address is not handed
+/// out again soon, so an old (destroyed) object and a new one can be told apart
+alignas( 64) unsigned char  g_arena[ 1 << 20];
+std::atomic< size_t>        g_arena_pos{ 0 };
+
 class Probe: public celma::common::Singleton< Probe>
 {
    friend class celma::common::Singleton< Probe>;
 public:
    int       arg;
    uint64_t  words[ 6];
+   static void* operator new( size_t size)
+   {
+      const size_t  step = (size + 63) & ~size_t( 63);
+      size_t        pos = g_arena_pos.fetch_add( step, std::memory_order_relaxed) % (sizeof( g_arena) - 4096);
+      return g_arena + (pos & ~size_t( 63));
+   }
+   static void operator delete( void*) {}
 protected:
    explicit Probe( int a): arg( a)
    {
@@ -67,13 +79,73 @@ protected:
    }
 };
 
+/// a second singleton type with a two-argument constructor: the static
+/// members are per type, the two must not interfere
+std::atomic< int>  g_constructions_b{ 0 };
+
+class ProbeB: public celma::common::Singleton< ProbeB>
+{
+   friend class celma::common::Singleton< ProbeB>;
+public:
+   int          arg;
+   std::string  text;
+   uint64_t     words[ 6];
+protected:
+   ProbeB( int a, const std::string& t): arg( a), text( t)
+   {
+      g_constructions_b.fetch_add( 1, std::memory_order_relaxed);
+      for (int k = 0; k < 6; ++k)
+         words[ k] = payloadWord( a + 7, k);
+   }
+};
+
 struct Slot
 {
    const void*  addr = nullptr;
    int          arg = -1;
    uint64_t     words[ 6] = { 0, 0, 0, 0, 0, 0 };
    bool         done = false;
+   bool         text_ok = true;
 };
+
+void singletonWorkerB( int ctor_arg, Slot* slot, std::atomic< int>* go)
+{
+   if (go != nullptr)
+      while (go->load() == 0)
+         sim::schedYield();
+   ProbeB&  p = ProbeB::instance( ctor_arg, "text-" + std::to_string( ctor_arg));
+   slot->addr = &p;
+   slot->arg = p.arg;
+   for (int k = 0; k < 6; ++k)
+      slot->words[ k] = p.words[ k];
+   slot->text_ok = (p.text == "text-" + std::to_string( p.arg));
+   slot->done = true;
+}
+
+struct RoundCtl
+{
+   std::atomic< int>  round_go{ 0 };
+   std::atomic< int>  done{ 0 };
+};
+
+/// a thread that lives through all rounds: its first access of every round
+/// comes after another thread's reset()
+void persistentWorker( int tid, int rounds, std::vector< std::vector< Slot>>* slots, RoundCtl* ctl)
+{
+   for (int r = 0; r < rounds; ++r)
+   {
+      while (ctl->round_go.load() < r + 1)
+         sim::schedYield();
+      Probe&  p = Probe::instance( 1000 * (r + 1) + tid);
+      Slot&   slot = (*slots)[ static_cast< size_t>( r)][ static_cast< size_t>( tid)];
+      slot.addr = &p;
+      slot.arg = p.arg;
+      for (int k = 0; k < 6; ++k)
+         slot.words[ k] = p.words[ k];
+      slot.done = true;
+      ctl->done.fetch_add( 1);
+   }
+}
 
 void singletonWorker( int ctor_arg, Slot* slot, std::atomic< int>* go)
 {
@@ -216,6 +288,8 @@ public:
          plan[ "threads"] = cfg.chance( 1, 2) ? cfg.range( 2, 4) : cfg.range( 2, maxk);
          plan[ "rounds"] = cfg.range( 1, 3);
          plan[ "barrier"] = cfg.chance( 1, 2);
+         plan[ "two_types"] = cfg.chance( 1, 3);
+         plan[ "persistent"] = cfg.chance( 1, 4);
          plan[ "sched"] = sim::genSchedule( sc, 400 * static_cast< uint64_t>( plan.geti( "threads")));
       } else
       {
@@ -319,19 +393,73 @@ private:
       if (k > 32) k = 32;
       const long long  rounds = std::max< long long>( 1, std::min< long long>( 4, plan.geti( "rounds", 1)));
       const bool       barrier = plan.geti( "barrier", 0) != 0;
+      const bool  two_types = plan.geti( "two_types", 0) != 0;
+      if (two_types) st.probe( P_two_singleton_types);
       Probe::reset();
+      ProbeB::reset();
       int  max_inside_all = 0;
       sim::schedBegin( sh.cfg);
+      if (plan.geti( "persistent", 0) != 0)
+      {
+         st.probe( P_persistent_threads);
+         std::vector< std::vector< Slot>>  slots( static_cast< size_t>( rounds), std::vector< Slot>( static_cast< size_t>( k)));
+         std::vector< const void*>         round_addr;
+         RoundCtl                          ctl;
+         std::vector< std::thread>         threads;
+         for (long long t = 0; t < k; ++t)
+            threads.emplace_back( persistentWorker, static_cast< int>( t), static_cast< int>( rounds), &slots, &ctl);
+         for (long long round = 0; round < rounds; ++round)
+         {
+            if (round > 0)
+            {
+               // all workers are between two rounds: quiescent
+               Probe::reset();
+               st.probe( P_reset_between_rounds);
+            }
+            g_constructions.store( 0);
+            ctl.done.store( 0);
+            ctl.round_go.store( static_cast< int>( round) + 1);
+            while (ctl.done.load() < static_cast< int>( k))
+               sim::schedYield();
+            const int  c = g_constructions.load();
+            th.add( static_cast< uint64_t>( c));
+            if (c != 1 && res.ok())
+               res.fail( "VIOLATION", "S1-constructed-once", "round " + std::to_string( round) + " (threads that live across reset()): "
+                  + std::to_string( c) + " objects were constructed for " + std::to_string( k) + " first accesses after the reset");
+            auto const&  sl = slots[ static_cast< size_t>( round)];
+            for (size_t t = 0; t < sl.size() && res.ok(); ++t)
+            {
+               if (sl[ t].addr != sl[ 0].addr || sl[ t].arg != sl[ 0].arg)
+                  res.fail( "VIOLATION", "S2-same-object", "round " + std::to_string( round) + ": thread " + std::to_string( t)
+                     + " received a different object than thread 0");
+               for (int w = 0; w < 6; ++w)
+                  if (sl[ t].words[ w] != payloadWord( sl[ t].arg, w))
+                     res.fail( "VIOLATION", "S3-fully-constructed", "round " + std::to_string( round) + ": thread " + std::to_string( t)
+                        + " saw payload that does not belong to a completely constructed object");
+               for (auto const* old : round_addr)
+                  if (sl[ t].addr == old)
+                     res.fail( "VIOLATION", "S2-same-object", "round " + std::to_string( round) + ": thread " + std::to_string( t)
+                        + " still received the object of an earlier round that reset() had destroyed");
+            }
+            round_addr.push_back( sl[ 0].addr);
+         }
+         for (auto & t : threads)
+            t.join();
+         state_key = (static_cast< uint64_t>( k) << 8) | 0x80;
+         return;
+      }
       for (long long round = 0; round < rounds && res.ok(); ++round)
       {
          g_constructions.store( 0);
+         g_constructions_b.store( 0);
          g_inside.store( 0);
          g_max_inside.store( 0);
          std::vector< Slot>            slots( static_cast< size_t>( k));
          std::vector< std::thread>     threads;
          std::atomic< int>             go{ 0 };
          for (long long t = 0; t < k; ++t)
-            threads.emplace_back( singletonWorker, static_cast< int>( 1000 * (round + 1) + t),
+            threads.emplace_back( (two_types && (t % 2) == 1) ? singletonWorkerB : singletonWorker,
+                                  static_cast< int>( 1000 * (round + 1) + t),
                                   &slots[ static_cast< size_t>( t)], barrier ? &go : nullptr);
          go.store( 1);
          for (auto & t : threads)
@@ -339,7 +467,12 @@ private:
          max_inside_all = std::max( max_inside_all, g_max_inside.load());
          // S1 exactly one construction
          const int  c = g_constructions.load();
+         const int  cb = g_constructions_b.load();
          th.add( static_cast< uint64_t>( c));
+         th.add( static_cast< uint64_t>( cb));
+         if (two_types && k >= 2 && cb != 1)
+            res.fail( "VIOLATION", "S1-constructed-once", "round " + std::to_string( round) + ": "
+               + std::to_string( cb) + " objects of the second singleton type were constructed");
          if (c != 1)
             res.fail( "VIOLATION", "S1-constructed-once", "round " + std::to_string( round) + ": "
                + std::to_string( c) + " objects were constructed for " + std::to_string( k) + " racing first accesses");
@@ -351,14 +484,19 @@ private:
                res.fail( "VIOLATION", "S5-progress", "thread " + std::to_string( t) + " did not finish");
                break;
             }
-            if (slots[ t].addr != slots[ 0].addr)
+            const bool    is_b = two_types && (t % 2) == 1;
+            const size_t  ref = is_b ? 1 : 0;
+            if (slots[ t].addr != slots[ ref].addr)
                res.fail( "VIOLATION", "S2-same-object", "round " + std::to_string( round) + ": thread "
-                  + std::to_string( t) + " received a different object than thread 0");
+                  + std::to_string( t) + " received a different object than thread " + std::to_string( ref));
+            if (!slots[ t].text_ok)
+               res.fail( "VIOLATION", "S3-fully-constructed", "round " + std::to_string( round) + ": thread "
+                  + std::to_string( t) + " saw a string member that does not belong to the constructed object");
             for (int w = 0; w < 6; ++w)
-               if (slots[ t].words[ w] != payloadWord( slots[ t].arg, w))
+               if (slots[ t].words[ w] != payloadWord( slots[ t].arg + (is_b ? 7 : 0), w))
                   res.fail( "VIOLATION", "S3-fully-constructed", "round " + std::to_string( round) + ": thread "
                      + std::to_string( t) + " saw payload word " + std::to_string( w) + " of a partly constructed object");
-            if (slots[ t].arg != slots[ 0].arg)
+            if (slots[ t].arg != slots[ ref].arg)
                res.fail( "VIOLATION", "S2-same-object", "threads saw objects built from different constructor arguments");
          }
          if (trace != nullptr)
@@ -367,6 +505,7 @@ private:
          if (round + 1 < rounds)
          {
             Probe::reset();
+            ProbeB::reset();
             st.probe( P_reset_between_rounds);
          }
       }
